@@ -641,6 +641,9 @@ def c19_body(r, i):
                      ("lit-alias", 2), ("intersection", 1), ("exported", 1)] if d < 3 else [("callsig-lit", 1)])
         tg.used["emits:" + k] += 1
         lit = " | ".join("'%s'" % x for x in names)
+        if r.chance(0.25):
+            lit = "(%s)" % lit       # a parenthesised union is the same union
+            tg.used["emits:paren-names"] += 1
         if k == "fn-union-lit":
             return "(e: %s, ...args: any[]) => void" % lit
         if k == "fn":
